@@ -48,10 +48,15 @@ func RunCLI(run func(version string) int, p *Proc) ProcResult {
 			panic(err)
 		}
 	}
+	// Written reports the files the run created or opened for writing; a file that
+	// existed before counts when its content is no longer what it was
 	before := map[string]bool{}
+	old := map[string]string{}
 	ents, _ := os.ReadDir(dir)
 	for _, e := range ents {
 		before[e.Name()] = true
+		b, _ := os.ReadFile(filepath.Join(dir, e.Name()))
+		old[e.Name()] = string(b)
 	}
 	stdinPath := filepath.Join(dir, ".stdin")
 	var sb []byte
@@ -87,8 +92,8 @@ func RunCLI(run func(version string) int, p *Proc) ProcResult {
 	res.Stdout, res.Stderr = string(ob), string(eb)
 	ents, _ = os.ReadDir(dir)
 	for _, e := range ents {
-		if !before[e.Name()] {
-			b, _ := os.ReadFile(filepath.Join(dir, e.Name()))
+		b, _ := os.ReadFile(filepath.Join(dir, e.Name()))
+		if !before[e.Name()] || (e.Name()[0] != '.' && string(b) != old[e.Name()]) {
 			res.Written[e.Name()] = string(b)
 		}
 	}
